@@ -60,7 +60,7 @@ CLAIMED.update({
                 "The in-place rewrite used by reordering (forest::modifyReducedNodeInPlace) leaves the unique table under the old hash "
                 "before the storage goes and re-enters under the hash of the new content. BOUNDED stand-ins (labelled bounded, not counted "
                 "as proved): the packed-node codec in both directions (makeNode, areDuplicates, getDownPtr, isSingletonNode, fillUnpacked in every view) on nodes of up to 3 entries (U-codecb, U-unpackb) and the real mtmdd swapAdjacentVariables on a "
-                "symbolic world of 2 (quick) / 3 (thorough) stored nodes (U-swapb); the real unpacked_node::sort on sparse nodes of up to 3 entries (U-sortb). Partial (see note).",
+                "symbolic world of 2 (quick) / 3 (thorough) stored nodes (U-swapb); the real unpacked_node::sort on sparse nodes of up to 3 entries (U-sortb); the real EV+ swapAdjacentVariables on 2 stored nodes (U-swapbev). Partial (see note).",
         "note": COMMON_NOTE + " Not covered: relation swaps, chain builders, node-count bookkeeping across histories, "
                 "completeness of elimination (counting argument).",
         "design_ref": "DESIGN.md A.1, A.2b, 4 U-reduce, U-hash",
@@ -85,7 +85,8 @@ CLAIMED.update({
                 "BOUNDED stand-ins for four of the eight schedules (sink_down, bring_up, lowest_inversion, highest_inversion: the real "
                 "reorderVariables on domains of up to 4 variables, every current and target order): only adjacent levels inside the domain are "
                 "swapped, every array access is in bounds (exposed a heap overflow by one int in six schedules, fixed), the target order is reached. "
-                "Relation swaps, the EV+ swap and the four cost-driven schedules are out of reach.",
+                "BOUNDED stand-in: the real evmdd_pluslong::swapAdjacentVariables on up to 2 stored EV+ nodes with long edge values (U-swapbev): the value along every path is preserved. "
+                "Relation swaps and the four cost-driven schedules are out of reach.",
         "note": COMMON_NOTE,
         "design_ref": "DESIGN.md A.2b, 4 U-vord",
     },
